@@ -178,7 +178,10 @@ func scaleModel(src barcode.Barcode, res barcode.Barcode, err error, w, h int, f
 		if err == nil {
 			return fmt.Sprintf("request %dx%d is smaller than the %dx%d symbol but no error was returned", w, h, w0, h0), false
 		}
-		if res != nil && !isNilIface(res) {
+		if res != nil {
+			if isNilIface(res) {
+				return fmt.Sprintf("error together with a non-nil Barcode interface holding a nil %T", res), false
+			}
 			return "error together with a non-nil barcode", false
 		}
 		return "", false
